@@ -228,8 +228,17 @@ def latest_facts_dir():
 SCRATCH = os.environ.get("CORROLINT_SCRATCH", "/tmp/corrolint-scratch")
 
 
+_SCRATCH_LOCK = None
+
+
 def scratch_copy(repo=REPO):
-    """fresh copy of the repository's working tree (without target/.git) outside /repo and /verif"""
+    """fresh copy of the repository's working tree (without target/.git) outside /repo and /verif.
+    One scratch user at a time (flock), released by remove_scratch()."""
+    global _SCRATCH_LOCK
+    if _SCRATCH_LOCK is None:
+        os.makedirs(CACHE, exist_ok=True)
+        _SCRATCH_LOCK = open(os.path.join(CACHE, "scratch.lock"), "w")
+        fcntl.flock(_SCRATCH_LOCK, fcntl.LOCK_EX)
     if os.path.exists(SCRATCH):
         shutil.rmtree(SCRATCH)
     os.makedirs(SCRATCH)
@@ -240,4 +249,9 @@ def scratch_copy(repo=REPO):
 
 
 def remove_scratch():
+    global _SCRATCH_LOCK
     shutil.rmtree(SCRATCH, ignore_errors=True)
+    if _SCRATCH_LOCK is not None:
+        fcntl.flock(_SCRATCH_LOCK, fcntl.LOCK_UN)
+        _SCRATCH_LOCK.close()
+        _SCRATCH_LOCK = None
